@@ -44,6 +44,8 @@ func coqOp(o *Op) string {
 		return fmt.Sprintf("OXfer %d %s", o.A, coqZs(o.V))
 	case "exit":
 		return fmt.Sprintf("OExit %d", o.A)
+	case "hang":
+		return "OHang"
 	}
 	return "OLog 0"
 }
@@ -58,7 +60,7 @@ func coqTx(t *Tx, dataLen int) string {
 	if val == "" {
 		val = "0"
 	}
-	return fmt.Sprintf("(mkTx %d %d %s %s %s (%d)%%Z [%s])", t.From, t.To, coqZs(val), coqZs(t.Limit), dt, dataLen, strings.Join(ops, "; "))
+	return fmt.Sprintf("(mkTx %d %d %s %s %s (%d)%%Z %v [%s])", t.From, t.To, coqZs(val), coqZs(t.Limit), dt, dataLen, t.Async, strings.Join(ops, "; "))
 }
 
 func coqBals(b []*big.Int) string {
@@ -352,6 +354,9 @@ func Kinds(in *BlockIn, obs *BlockObs) string {
 		switch {
 		case tx.To == IDScript && tx.DT == DTCall:
 			k = "script"
+			if tx.Async {
+				k = "ascript"
+			}
 		case tx.To == IDScript:
 			k += "-to-contract"
 		case tx.To == IDNoContract:
@@ -521,6 +526,61 @@ func genOps(r *rand.Rand, bal []*big.Int, failing bool) []Op {
 	return ops
 }
 
+// RealHangBudget is the number of really hanging frames (each blocks for TxTimeout) the
+// generator may still emit; further timeouts use the Timeout status path.
+var RealHangBudget int
+
+// genTimeoutOps: every frame of a chain of depth 2 or 3 mutates state, then the innermost
+// frame times out (hangs, or returns the Timeout status); the instructions after it run
+// only where the timeout is an ordinary caught failure (synchronous nested calls).
+func genTimeoutOps(r *rand.Rand, bal []*big.Int, from int) []Op {
+	mut := func() []Op {
+		var ops []Op
+		for n := 1 + r.Intn(3); n > 0; n-- {
+			switch r.Intn(5) {
+			case 0, 1:
+				ops = append(ops, Op{K: "set", A: r.Intn(NAcct), B: r.Intn(NKeys), V: fmt.Sprint(1 + r.Intn(4))})
+			case 2:
+				a := r.Intn(NAcct)
+				ops = append(ops, Op{K: "move", A: a, B: r.Intn(NAcct), V: dec(new(big.Int).Div(bal[a], big.NewInt(int64(4+r.Intn(20)))))})
+			case 3:
+				ops = append(ops, Op{K: "log", A: r.Intn(100)})
+			default:
+				ops = append(ops, Op{K: "btp", A: 1 + r.Intn(100)})
+			}
+		}
+		return ops
+	}
+	ops := mut()
+	depth := 2 + r.Intn(2)
+	for d := 1; d < depth; d++ {
+		ops = append(ops, Op{K: "enter"})
+		ops = append(ops, mut()...)
+		if r.Intn(4) == 0 {
+			ops = append(ops, Op{K: "xfer", A: r.Intn(IDTreasury + 1), V: fmt.Sprint(r.Intn(3))})
+		}
+	}
+	switch {
+	case RealHangBudget > 0 && r.Intn(3) == 0:
+		RealHangBudget--
+		ops = append(ops, Op{K: "hang", A: 1})
+	case r.Intn(2) == 0:
+		ops = append(ops, Op{K: "hang"})
+	default:
+		ops = append(ops, Op{K: "exit", A: 12})
+	}
+	for d := 1; d < depth; d++ {
+		if r.Intn(2) == 0 {
+			ops = append(ops, Op{K: "log", A: 200 + d})
+		}
+		ops = append(ops, Op{K: "exit", A: []int{0, 0, 32}[r.Intn(3)]})
+	}
+	if r.Intn(2) == 0 {
+		ops = append(ops, Op{K: "set", A: from, B: 0, V: "3"})
+	}
+	return ops
+}
+
 // GenTx draws one transaction; bal is the (approximate) current balance vector.
 func GenTx(r *rand.Rand, p *Params, bal []*big.Int, scriptBias int) Tx {
 	tx := Tx{From: r.Intn(NEOA)}
@@ -550,7 +610,13 @@ func GenTx(r *rand.Rand, p *Params, bal []*big.Int, scriptBias int) Tx {
 		tx.Pad = int(pick(r, 0, 0, 1, 7, 40, 300))
 	}
 	if tx.To == IDScript && tx.DT == DTCall {
-		tx.Ops = genOps(r, bal, r.Intn(100) < 70)
+		tx.Async = r.Intn(100) < 45
+		if r.Intn(100) < 18 {
+			tx.Ops = genTimeoutOps(r, bal, tx.From)
+			tx.Async = r.Intn(100) < 80
+		} else {
+			tx.Ops = genOps(r, bal, r.Intn(100) < 70)
+		}
 	}
 	_, data := dataOf(&tx)
 	need := p.CDefault + p.CInput*int64(len(data))
